@@ -58,11 +58,15 @@ def load_pf():
 
 
 class Bench:
-    def __init__(self, ctx):
+    def __init__(self, ctx, pages=None, ocr=True):
         import cv2
         self.cv2 = cv2
         self.root = tempfile.mkdtemp(prefix='verif_c17_')
-        self.cfg = stubs.build_batch(self.root, ctx.rng, PAGES)
+        self.cfg = stubs.build_batch(self.root, ctx.rng, pages or PAGES)
+        if not ocr:
+            # model-free pipeline (layout from the input PAGE XML + line cropping): what --process-count > 1 can run
+            txt = open(self.cfg).read().replace('RUN_OCR = yes', 'RUN_OCR = no')
+            open(self.cfg, 'w').write(txt)
         self.pf = load_pf()
         self.inj = Injector(self.root)
         self._open = builtins.open
@@ -96,7 +100,7 @@ class Bench:
         for k in KINDS:
             shutil.rmtree(self.outdir(k), ignore_errors=True)
 
-    def run(self, kinds, skip=True, kill_at=None):
+    def run(self, kinds, skip=True, kill_at=None, process_count=None):
         self.inj.count = 0
         self.inj.kill_at = kill_at
         self.inj.log = []
@@ -105,6 +109,8 @@ class Bench:
             argv += [FLAG[k], self.outdir(k)]
         if skip:
             argv.append('-s')
+        if process_count:
+            argv += ['--process-count', str(process_count)]
         old = sys.argv
         sys.argv = argv
         buf = io.StringIO()
@@ -344,7 +350,48 @@ def run(ctx):
                 ctx.sample(dict(inp, runs=[t[0] for t in trace]), limit=4)
                 ctx.hist = getattr(ctx, 'hist', [])
                 ctx.hist.append((kinds, hist, [t[1] for t in trace], lst))
+    parallel_resume(ctx)
     correspond(ctx)
+
+
+def parallel_resume(ctx):
+    """A batch interrupted in a serial run and RESUMED WITH SEVERAL WORKERS (--process-count N): every requested output must be
+    there afterwards, also when fewer pages are left than there are workers."""
+    rng = ctx.rng
+    pages = ['w1', 'w2', 'w3', 'w4', 'w5']
+    kinds = ['xml', 'render', 'lines']
+    with Bench(ctx, pages=pages, ocr=False) as b:
+        b.clean()
+        r = b.run(kinds, skip=False)
+        if r != 'ok':
+            ctx.notes.append('parallel resume: the model-free reference run ended with %s; skipped' % r)
+            return
+        ref_list, ref_cont, nwrites = b.listing(kinds), b.contents(kinds), b.inj.count
+        for it in range(4 if ctx.quick() else 14):
+            b.clean()
+            k = rng.randrange(max(1, nwrites // 3), nwrites + 1)      # mostly late crashes: few pages are left
+            n = rng.choice([2, 3, 4, 6])
+            inp = dict(kinds=kinds, pages=pages, crash_before_write=[k], resumed_with_process_count=n)
+            ctx.evaluations += 1
+            res = b.run(kinds, skip=True, kill_at=k)
+            if res not in ('killed', 'ok'):
+                ctx.violation('crashed-run:%s' % res, 'interrupted run ended with %s' % res, inp)
+                continue
+            res = b.run(kinds, skip=True, process_count=n)
+            if res != 'ok':
+                ctx.violation('parallel-resume:%s' % res, 'resume with --process-count %d ended with %s' % (n, res), inp)
+                continue
+            lst = b.listing(kinds)
+            if lst != ref_list:
+                missing = {kk: sorted(set(ref_list[kk]) - set(lst[kk])) for kk in kinds if set(ref_list[kk]) - set(lst[kk])}
+                ctx.violation('incomplete-after-resume:process-count', 'after resuming with several workers, requested outputs are missing', inp, missing)
+            else:
+                cont = b.contents(kinds)
+                diff = [kk for kk in ref_cont if cont.get(kk) != ref_cont[kk]]
+                if diff:
+                    ctx.violation('content-differs:process-count', 'outputs of a resume with several workers differ from those of an uninterrupted run', inp, diff[:5])
+            ctx.nontriv(inp)
+            ctx.count('parallel_resumes')
 
 
 def correspond(ctx):
